@@ -54,8 +54,10 @@ static void plan_gen(DPlan *P, uint64_t seed, const RunOpts *o) {
     bool c18 = strcmp(P->sub, "c18") == 0;
     sim_seed(seed);
     gen_knobs(quick);
-    uint32_t m = sim_rndn(10);
-    P->mode = m < 6 ? 0 : 1;
+    uint32_t m = sim_rndn(16);
+    P->mode = m < 9 ? 0 : m < 15 ? 1 : 2;
+    if (c18 && P->mode == 2) P->mode = 0;
+    if (o->sub && strcmp(o->sub, "c17idle") == 0) { P->mode = 2; strcpy(P->sub, "c17"); }
     P->verbose = sim_rndn(3) == 0;
     int maxc = quick ? 8 : (sim_rndn(8) == 0 ? 48 : 12);
     if (c18) maxc = 4;
@@ -69,6 +71,8 @@ static void plan_gen(DPlan *P, uint64_t seed, const RunOpts *o) {
         /* (prog,tok) must be unique per run so every output byte is attributable */
         for (int j = 0; j < i; j++) if (P->c[j].tok == c->tok && strcmp(P->c[j].prog, c->prog) == 0) { c->tok = (c->tok + 1) % nt; j = -1; }
         c->arrive = window ? sim_rndn((uint32_t)window) : 0;
+        /* mode 2: the daemon idles out after 1 s; aim the arrivals at the instant it decides to shut down */
+        if (P->mode == 2) c->arrive = 1000000ull - 2000 - 45 + sim_rndn(70);
         if (c18 && sim_rndn(3) == 0) c->kill_sys = 1 + (int)sim_rndn(60);
         else if (c18 && sim_rndn(2) == 0) c->copkill = 1 + (int)sim_rndn(14);   /* only matters for sessions that use externs */
     }
@@ -369,7 +373,8 @@ static void fam_run(uint64_t seed, const RunOpts *o, Result *r) {
             (cout[i].len == 0 || memcmp(cout[i].d, ref->out.d, cout[i].len) == 0)) { what = NULL; }   /* co-process was killed under it: contained failure (C16's outcome) */
         if (what) {
             mismatches++;
-            res_violation(r, prop, "client-mismatch:%s:%s", what, P.c[i].prog);
+            if (P.mode == 2) res_violation(r, prop, "idle-shutdown-race:client-%s", WIFSIGNALED(cl[i]->status) ? "killed-by-SIGPIPE" : "gets-connection-error");
+            else res_violation(r, prop, "client-mismatch:%s:%s", what, P.c[i].prog);
             buf_printf(&r->detail, "client%d prog=%s tok=%d differs in %s: daemon-run status=%d out=%zuB err=[%.*s] | standalone status=%d out=%zuB err=[%.*s]\n",
                        i, P.c[i].prog, P.c[i].tok, what, exit_code_of(cl[i]->status), cout[i].len, (int)(e1.len > 300 ? 300 : e1.len), e1.d ? (char *)e1.d : "",
                        exit_code_of(ref->status), ref->out.len, (int)(e2.len > 300 ? 300 : e2.len), e2.d ? (char *)e2.d : "");
@@ -397,7 +402,8 @@ static void fam_run(uint64_t seed, const RunOpts *o, Result *r) {
         SimProc *p = sim_proc_at(i);
         if (p->img && strcmp(p->img->name, "nano_cop") == 0 && p->alive && !p->in_vfork_child) { res_violation(r, "C16", "orphan-cop-in-daemon"); }
     }
-    r->nontrivial = served > 0 && (S.threads_created > 1 || P.nbad > 0);
+    probe(r, "idle_timeout_mode", P.mode == 2); probe(r, "daemon_idle_exits", P.mode == 2 && daemon && !daemon->alive);
+    r->nontrivial = (served > 0 || P.mode == 2) && (S.threads_created > 1 || P.nbad > 0 || P.mode == 2);
     snprintf(r->class_key, sizeof r->class_key, "%016llx", (unsigned long long)sim_sched_hash());
     probe(r, "clients", (uint64_t)P.nclients); probe(r, "served_equal", (uint64_t)served); probe(r, "bad_peers", (uint64_t)P.nbad);
     probe(r, "lazy_launch", P.mode == 1); probe(r, "audits", audits); probe(r, "audit_objs", audit_objs);
